@@ -1,2 +1,100 @@
-import Pakhi.Model.Interp
-import Pakhi.Model.Parser
+/-
+  C17 — string built-ins: split and join are inverse; type names are total.
+-/
+import Pakhi.Lemmas.Split
+
+namespace Pakhi
+namespace C17
+
+/-- joining the fields of a split with the same non-empty separator gives the string back — for
+    every string (empty, only separators, leading / trailing / adjacent separators, separator equal
+    to the string, multi-character and overlapping separators) -/
+theorem join_of_split (s sep : Str) (hsep : sep ≠ []) : joinStr sep (splitStr s sep) = s :=
+  join_split s sep hsep
+
+/-- splitting by the empty string yields the characters -/
+theorem split_by_empty (s : Str) : splitStr s [] = s.map (fun c => [c]) := split_empty_sep s
+
+/-- joining a non-empty list whose elements do not contain the single separator character and
+    splitting again returns the list -/
+theorem split_of_join_singleChar (c : Char) (l : List Str) (hl : l ≠ []) (hno : ∀ x ∈ l, c ∉ x) :
+    splitStr (joinStr [c] l) [c] = l := split_join_singleChar c l hl hno
+
+/-- the same clause is FALSE for multi-character separators (KNOWN-FINDING C17-multichar):
+    `["a","x"]` joined with `"aa"` is `"aaax"`, which splits into `["", "ax"]` -/
+theorem split_of_join_multiChar_false :
+    ∃ (sep : Str) (l : List Str), l ≠ [] ∧ (∀ x ∈ l, ¬ ∃ pre post, x = pre ++ sep ++ post) ∧
+      splitStr (joinStr sep l) sep ≠ l := by
+  refine ⟨['a', 'a'], [['a'], ['x']], by decide, ?_, by decide⟩
+  intro x hx ⟨pre, post, h⟩
+  simp at hx
+  rcases hx with rfl | rfl <;> (have := congrArg List.length h; simp at this; omega)
+
+/-- a split always has at least one field -/
+theorem split_nonempty (s sep : Str) (hsep : sep ≠ []) : splitStr s sep ≠ [] := by
+  unfold splitStr
+  have : sep.isEmpty = false := by cases sep <;> simp_all
+  simp [this]; exact splitGo_ne_nil sep _ s []
+
+/-- `_টাইপ` is total and gives the seven constructors seven different names -/
+theorem typeName_injective_on_kinds :
+    [typeName (.num 0), typeName (.bool true), typeName (.str []), typeName (.list 0), typeName (.record 0),
+     typeName (.func 0 []), typeName .nil].Nodup := by decide
+
+/-- the name depends on the constructor only -/
+theorem typeName_kind (v : Val) :
+    typeName v ∈ [W.tyNum, W.tyBool, W.tyString, W.tyList, W.tyRecord, W.tyFunc, W.tyNil] := by
+  cases v <;> simp [typeName]
+
+theorem names_resolve :
+    builtinOf? W.fnStringSplit = some .stringSplit ∧ builtinOf? W.fnStringJoin = some .stringJoin ∧
+    builtinOf? W.fnType = some .type := by decide
+
+/-- `_স্ট্রিং-স্প্লিট(s, sep)` allocates the list of fields -/
+theorem split_builtin (st : St) (s sep : Str) :
+    callB .stringSplit [.str s, .str sep] st =
+      .inl ((st.heap.allocList ((splitStr s sep).map .str)).1, { st with heap := (st.heap.allocList ((splitStr s sep).map .str)).2 }) := by
+  simp [callB]
+
+/-- `_স্ট্রিং-জয়েন(l, sep)` on a list of strings -/
+theorem join_builtin (st : St) (i : Nat) (strs : List Str) (sep : Str)
+    (h : st.heap.lists[i]? = some (strs.map .str)) :
+    callB .stringJoin [.list i, .str sep] st = .inl (.str (joinStr sep strs), st) := by
+  have : ∀ l : List Str, (l.map Val.str).mapM Val.str? = some l := by
+    intro l
+    induction l with
+    | nil => rfl
+    | cons a r ih => simp only [List.map_cons, List.mapM_cons, Val.str?, ih]; rfl
+  simp [callB, h, this]
+
+/-- `_টাইপ(v)` for every value -/
+theorem type_builtin (st : St) (v : Val) : callB .type [v] st = .inl (.str (typeName v), st) := by
+  simp [callB]
+
+/-- wrong argument counts are errors -/
+theorem arity_errors (st : St) :
+    (∀ a, ∃ t, callB .stringSplit [a] st = .inr t) ∧ (∀ a b c, ∃ t, callB .stringSplit [a, b, c] st = .inr t) ∧
+    (∃ t, callB .stringSplit [] st = .inr t) ∧
+    (∀ a, ∃ t, callB .stringJoin [a] st = .inr t) ∧ (∀ a b c, ∃ t, callB .stringJoin [a, b, c] st = .inr t) ∧
+    (∃ t, callB .type [] st = .inr t) ∧ (∀ a b, ∃ t, callB .type [a, b] st = .inr t) := by
+  simp [callB]
+
+/-- wrong argument types are errors -/
+theorem type_errors (st : St) (a b : Val) :
+    ((∀ s, a ≠ .str s) ∨ (∀ s, b ≠ .str s) → ∃ t, callB .stringSplit [a, b] st = .inr t) ∧
+    ((∀ i, a ≠ .list i) ∨ (∀ s, b ≠ .str s) → ∃ t, callB .stringJoin [a, b] st = .inr t) := by
+  constructor
+  · intro h
+    cases a <;> cases b <;> simp [callB] <;> (rcases h with h | h <;> exact absurd rfl (h _))
+  · intro h
+    cases a <;> cases b <;> simp [callB] <;> first
+      | (rcases h with h | h <;> exact absurd rfl (h _))
+      | skip
+    all_goals (split <;> simp)
+
+example : splitStr ",a,".toList [','] = [[], ['a'], []] := by decide
+example : splitStr [] [','] = [[]] := by decide
+example : splitStr ['a','a','a'] ['a','a'] = [[], ['a']] := by decide
+
+end C17
+end Pakhi
